@@ -32,15 +32,15 @@ CHECKS = {
     "C02": ("trace validation against Executor.tla (TLC), exhaustive parameter box", E_TEXT, "5 C02", "tlc-trace-validation"),
     "C03": ("trace validation: budget invariants of Executor.tla in every state (TLC)", E_TEXT, "5 C03", "tlc-trace-validation"),
     "C04": ("trace validation: storage-clean clauses at every EndReverse (TLC)", E_TEXT, "5 C04", "tlc-trace-validation"),
-    "C05": ("TLC exhaustive search of all executable schedules (ExecOpt.tla) + Griewank-Walther closed form/recurrence state machine (OptTables.tla) on validated trace totals", OPT_TEXT, "5 C05", "tlc-exhaustive-search"),
-    "C06": ("TLC exhaustive search of all executable schedules with mixed units (ExecOpt.tla) + mixed recurrence (OptTables.tla)", OPT_TEXT, "5 C06", "tlc-exhaustive-search"),
-    "C07": ("TLC exhaustive cost-bounded search over RAM/DISK hierarchies and cost vectors (ExecOpt.tla) + sibling order relations (CostOrder.tla)", OPT_TEXT, "5 C07", "tlc-exhaustive-search"),
-    "C08": ("trace validation: observer clauses of SchedAPI.tla after every call (TLC)", E_TEXT, "5 C08", "tlc-trace-validation"),
+    "C05": ("TLC exhaustive search of all executable schedules (ExecOpt.tla, simulation Executor=>ExecOpt checked by ExecRefines.tla) + Griewank-Walther closed form/recurrence state machine and Bellman check of every planner step (OptTables.tla) on validated trace totals + nondeterministic generator model GenBinomial at design level", OPT_TEXT, "5 C05", "tlc-exhaustive-search"),
+    "C06": ("TLC exhaustive search of all executable schedules with mixed units (ExecOpt.tla, ExecRefines.tla) + mixed recurrence and planner-entry scan (OptTables.tla) + nondeterministic generator model GenMixed at design level", OPT_TEXT, "5 C06", "tlc-exhaustive-search"),
+    "C07": ("TLC exhaustive cost-bounded search over RAM/DISK hierarchies and integer/fractional cost vectors (ExecOpt.tla, ExecRefines.tla) + Disk-Revolve/H-Revolve recurrences as a state machine (HierTables.tla) + sibling order relations (CostOrder.tla)", OPT_TEXT, "5 C07", "tlc-exhaustive-search"),
+    "C08": ("trace validation: observer clauses of SchedAPI.tla after every call, on the trace box and on TLC-enumerated call histories with finalize probes at every stream position (TLC)", E_TEXT, "5 C08", "tlc-trace-validation"),
     "C09": ("trace validation of pass structure/exhaustion flags + TLC-enumerated call histories (Client.tla) replayed into the code", E_TEXT + " " + H_TEXT, "5 C09", "tlc-trace-validation"),
-    "C10": ("TLC-enumerated call histories (Client.tla) replayed into the real classes, logs validated against the finalize guard of SchedAPI.tla (TraceClient.tla)", H_TEXT, "5 C10", "tlc-history-replay"),
-    "C11": ("trace validation: uses_storage_type vs storages touched by the stream (TLC)", E_TEXT, "5 C11", "tlc-trace-validation"),
+    "C10": ("TLC-enumerated call histories (Client.tla) and finalize probes at every stream position replayed into the real classes, logs validated against the finalize guard of SchedAPI.tla (TraceClient.tla); generator models GenBasicFree at design level", H_TEXT, "5 C10", "tlc-history-replay"),
+    "C11": ("trace validation: uses_storage_type vs storages touched by the stream, on the trace box and on TLC-enumerated call histories (TLC)", E_TEXT, "5 C11", "tlc-trace-validation"),
     "C12": ("trace validation: WORK-storage clauses/invariant of Executor.tla (TLC)", E_TEXT, "5 C12", "tlc-trace-validation"),
-    "C13": ("trace validation with block history variable (TraceTwoLevel.tla) + GW closed form (GWForm.tla)", X_TEXT, "5 C13", "tlc-trace-validation"),
+    "C13": ("trace validation with block history variable (TraceTwoLevel.tla) + GW closed form (GWForm.tla) + planner-guided one-block configurations + generator model GenTwoLevel at design level", X_TEXT, "5 C13", "tlc-trace-validation"),
     "C14": ("trace validation with checkpoint-stack history and all-DISK sibling trace (TraceMultistage.tla)", X_TEXT, "5 C14", "tlc-trace-validation"),
     "C15": ("TLC-generated process interleavings (Process.tla) replayed in one interpreter, streams compared with fresh-interpreter references (TraceSibling.tla)", H_TEXT, "5 C15", "tlc-history-replay"),
     "C16": ("stub-numba second planner path: table entries judged by TLC (PlanTable.tla, OptTables.tla), streams compared event-wise (TraceSibling.tla)", H_TEXT, "5 C16", "tlc-trace-validation"),
